@@ -151,8 +151,11 @@ def run(ctx):
     # 3. binding self-test (thorough): the driver's observation follows the model it is given - cases sent with one
     #    value flipped must no longer match the expectation computed for the original
     if thorough and not ctx.replay:
+        # only models that the open findings do not touch (tag heads without a contained reserved word, no slice in
+        # the body): there the flipped model round-trips as well, so its result must differ from the original's
+        safe = set(RESERVED) | {"name", "count", "when"}
         good = [c for c, x in zip(cases, res) if dict(save=x["save"], read=x["read"], out=x["out"]) == c["expected"] and c["expected"]["read"] == "ok"
-                and len(c["fields"]) >= 2 and c["fields"][-1]["om"] == 0]
+                and len(c["fields"]) >= 2 and c["fields"][-1]["om"] == 0 and all(f["head"] in safe for f in c["fields"])]
         pick = rng.sample(good, min(40, len(good)))
         alt = []
         for c in pick:
